@@ -94,6 +94,17 @@ type tok struct {
 	opaque bool   // AES-sealed access token
 	host   int    // virtual host (issuer) the token was issued under; -1 = none
 	soft   string // non-empty: liveness of this token is not decided by the statement (Either), reason
+	// third-party strings (state "tp" / "ext", roles_test.go)
+	roles  string // roles in which the storage's verifier vouches for it: "s" subject, "a" actor
+	actSub string // name the verifier of the actor role returns (when it differs from sub)
+}
+
+// actorName: the party the token names when presented as actor_token.
+func (t *tok) actorName() string {
+	if t.actSub != "" {
+		return t.actSub
+	}
+	return t.sub
 }
 
 type world struct {
@@ -249,6 +260,7 @@ func build(t *testing.T, c *engine.Check) *world {
 	st := r.Core.St.Clone()
 	st.AuthReqs = map[string]*refstore.AuthReq{}
 	st.Codes = map[string]string{}
+	addThirdParty(st)
 	w.st = st
 	now := engine.Epoch.Add(caseAt)
 
@@ -327,7 +339,14 @@ func build(t *testing.T, c *engine.Check) *world {
 		return s
 	}
 	bogus := func(kind, s string) *tok { return &tok{kind: kind, str: s, state: "bogus", host: -1} }
-	ext := func() *tok { return &tok{kind: "ext", str: "ext:u2", typ: ttJWT, sub: "u2", state: "ext", host: -1} }
+	ext := func() *tok {
+		for _, t := range tpTokens {
+			if t.kind == "ext" {
+				return t.tok()
+			}
+		}
+		panic("no ext in tpTokens")
+	}
 	softly := func(tk *tok, why string) *tok { tk.soft = why; return tk }
 
 	subs := []*tok{
@@ -367,6 +386,11 @@ func build(t *testing.T, c *engine.Check) *world {
 	for _, tk := range subs {
 		w.sub[tk.kind] = tk
 	}
+	for _, t := range tpTokens {
+		if t.kind != "ext" {
+			w.sub[t.kind], w.act[t.kind] = t.tok(), t.tok()
+		}
+	}
 	acts := []*tok{
 		{kind: "none", state: "missing", host: -1},
 		mk("jwt-at", "act-webjwt", "at", "live"),
@@ -390,23 +414,30 @@ func build(t *testing.T, c *engine.Check) *world {
 	for _, tk := range acts {
 		w.act[tk.kind] = tk
 	}
-	for _, d := range space {
-		var have map[string]*tok
-		switch d.Name {
-		case "subj":
-			have = w.sub
-		case "actor":
-			have = w.act
-		default:
-			continue
-		}
-		for _, v := range d.Vals {
-			if have[v] == nil {
-				c.Internal("prefix: alphabet value " + d.Name + "=" + v + " has no token")
+	for _, sp := range []engine.Space{space, vetoSpace, claimSpace, pairSpace, roleSpace, rolePairSpace} {
+		for _, d := range sp {
+			var have map[string]*tok
+			switch strings.TrimPrefix(strings.TrimPrefix(d.Name, "x."), "y.") {
+			case "subj":
+				have = w.sub
+			case "actor":
+				have = w.act
+			default:
+				continue
+			}
+			for _, v := range d.Vals {
+				if have[v] == nil {
+					c.Internal("prefix: alphabet value " + d.Name + "=" + v + " has no token")
+				}
 			}
 		}
-		if len(have) != len(d.Vals) {
-			c.Internal("prefix: token list and alphabet of " + d.Name + " differ in size")
+	}
+	for name, have := range map[string]map[string]*tok{"subj": w.sub, "actor": w.act} {
+		// every token is in the alphabet of part exchange or of part roles
+		for kind := range have {
+			if !slices.Contains(space[space.Idx(name)].Vals, kind) && !slices.Contains(roleSpace[roleSpace.Idx(name)].Vals, kind) {
+				c.Internal("prefix: token " + kind + " is in no " + name + " alphabet")
+			}
 		}
 	}
 
